@@ -1,7 +1,7 @@
-//! C06: the REAL blocking `Framed::write` over a scripted in-memory transport.
-//! (The read side - C05 and the call sites of C07/C09 - was built in the same shape and
-//! measured: one 4-byte frame through Framed::read/read_buf/BytesMut::split_to does not
-//! finish in CBMC within 400 s, so it is not claimed; see DESIGN.md.) `Codec::decode` / `encode`
+//! C06: the REAL blocking `Framed::write` over a scripted in-memory transport, and the
+//! single-frame obligations of C05 / C07 / C09 on the REAL blocking `Framed::read` (incl. its
+//! unsafe `read_buf`). One received frame per harness is the measured limit (DESIGN K31:
+//! one read with a packet costs 200-450 s of CBMC, a second frame does not finish). `Codec::decode` / `encode`
 //! are replaced by executable models of the contracts proved for them in the Verus unit
 //! `framing` (Kani cannot run the 73-way binrw reader, DESIGN K5): exactly the announced
 //! frame leaves the buffer and the packet is a function of that frame's bytes only.
@@ -288,4 +288,246 @@ fn c06_write_complete_accept3() {
 #[kani::stub(crate::net::codec::Codec::encode, encode_model)]
 fn c06_write_complete_accept4() {
     write_two(4);
+}
+
+
+// ------------------------------------------------------------------ read side (one frame)
+
+/// Model of Codec::decode per its proved contract, parser = "every frame is a TINY with
+/// request id frame[2] and sub-type NONE iff frame[3] == 0".
+fn decode_tiny_only(this: &Codec, src: &mut BytesMut) -> Result<Option<Packet>> {
+    if src.len() < 4 {
+        return Ok(None);
+    }
+    let n = announced(this.mode(), src[0]);
+    if n < 4 || n > this.mode().max_length() {
+        return Err(Error::Disconnected);
+    }
+    if src.len() < n {
+        return Ok(None);
+    }
+    let frame = src.split_to(n);
+    Ok(Some(Packet::Tiny(Tiny {
+        reqi: RequestId(frame[2]),
+        subt: if frame[3] == 0 { TinyType::None } else { TinyType::Ping },
+    })))
+}
+
+/// Model of Codec::decode per its proved contract, parser = "every frame is a VER with
+/// request id frame[2] and InSim version frame[3]".
+fn decode_ver_only(this: &Codec, src: &mut BytesMut) -> Result<Option<Packet>> {
+    if src.len() < 4 {
+        return Ok(None);
+    }
+    let n = announced(this.mode(), src[0]);
+    if n < 4 || n > this.mode().max_length() {
+        return Err(Error::Disconnected);
+    }
+    if src.len() < n {
+        return Ok(None);
+    }
+    let frame = src.split_to(n);
+    let mut v = Ver::default();
+    v.reqi = RequestId(frame[2]);
+    v.insimver = frame[3];
+    Ok(Some(Packet::Ver(v)))
+}
+
+fn one_frame(mask: u32) {
+    let r1: u8 = kani::any();
+    let data: [u8; MAXS] = [1, 3, r1, 3, 0, 0, 0, 0, 0, 0, 0, 0];
+    script_reset(data, 4, mask);
+    let mut f = framed(Mode::Compressed);
+    f.verify_version(false);
+    let a = f.read();
+    expect_tiny(&a, r1, false);
+    assert!(out_len() == 0, "nothing is written for a packet that is not a keep-alive");
+    core::mem::forget(a);
+    core::mem::forget(f);
+}
+
+//@ id: one_frame_segmentation_0
+//@ prop: C05
+//@ functions: insim/src/net/blocking_impl/framed.rs Framed::read; insim/src/net/blocking_impl/framed.rs Framed::read_buf
+//@ statement: blocking Framed::read over a transport that delivers one 4-byte frame (symbolic request id) in reads of [4] byte(s): read returns exactly that frame's packet and writes nothing
+//@ bounded: ONE frame of 4 bytes, segmentation [4] (the 8 harnesses enumerate all 2^3 segmentations); Codec::decode replaced by an executable model of its proved contract; a second frame does not finish in CBMC (K31)
+//@ timeout: 1500
+#[kani::proof]
+#[kani::unwind(14)]
+#[kani::stub(core::fmt::write, verif_fmt_ok)]
+#[kani::stub(crate::net::codec::Codec::decode, decode_tiny_only)]
+#[kani::stub(crate::net::codec::Codec::encode, encode_model)]
+fn c05_one_frame_segmentation_0() {
+    one_frame(0);
+}
+
+//@ id: one_frame_segmentation_1
+//@ prop: C05
+//@ functions: insim/src/net/blocking_impl/framed.rs Framed::read; insim/src/net/blocking_impl/framed.rs Framed::read_buf
+//@ statement: blocking Framed::read over a transport that delivers one 4-byte frame (symbolic request id) in reads of [1, 3] byte(s): read returns exactly that frame's packet and writes nothing
+//@ bounded: ONE frame of 4 bytes, segmentation [1, 3] (the 8 harnesses enumerate all 2^3 segmentations); Codec::decode replaced by an executable model of its proved contract; a second frame does not finish in CBMC (K31)
+//@ timeout: 1500
+#[kani::proof]
+#[kani::unwind(14)]
+#[kani::stub(core::fmt::write, verif_fmt_ok)]
+#[kani::stub(crate::net::codec::Codec::decode, decode_tiny_only)]
+#[kani::stub(crate::net::codec::Codec::encode, encode_model)]
+fn c05_one_frame_segmentation_1() {
+    one_frame(1);
+}
+
+//@ id: one_frame_segmentation_2
+//@ prop: C05
+//@ functions: insim/src/net/blocking_impl/framed.rs Framed::read; insim/src/net/blocking_impl/framed.rs Framed::read_buf
+//@ statement: blocking Framed::read over a transport that delivers one 4-byte frame (symbolic request id) in reads of [2, 2] byte(s): read returns exactly that frame's packet and writes nothing
+//@ bounded: ONE frame of 4 bytes, segmentation [2, 2] (the 8 harnesses enumerate all 2^3 segmentations); Codec::decode replaced by an executable model of its proved contract; a second frame does not finish in CBMC (K31)
+//@ timeout: 1500
+#[kani::proof]
+#[kani::unwind(14)]
+#[kani::stub(core::fmt::write, verif_fmt_ok)]
+#[kani::stub(crate::net::codec::Codec::decode, decode_tiny_only)]
+#[kani::stub(crate::net::codec::Codec::encode, encode_model)]
+fn c05_one_frame_segmentation_2() {
+    one_frame(2);
+}
+
+//@ id: one_frame_segmentation_3
+//@ prop: C05
+//@ functions: insim/src/net/blocking_impl/framed.rs Framed::read; insim/src/net/blocking_impl/framed.rs Framed::read_buf
+//@ statement: blocking Framed::read over a transport that delivers one 4-byte frame (symbolic request id) in reads of [1, 1, 2] byte(s): read returns exactly that frame's packet and writes nothing
+//@ bounded: ONE frame of 4 bytes, segmentation [1, 1, 2] (the 8 harnesses enumerate all 2^3 segmentations); Codec::decode replaced by an executable model of its proved contract; a second frame does not finish in CBMC (K31)
+//@ timeout: 1500
+#[kani::proof]
+#[kani::unwind(14)]
+#[kani::stub(core::fmt::write, verif_fmt_ok)]
+#[kani::stub(crate::net::codec::Codec::decode, decode_tiny_only)]
+#[kani::stub(crate::net::codec::Codec::encode, encode_model)]
+fn c05_one_frame_segmentation_3() {
+    one_frame(3);
+}
+
+//@ id: one_frame_segmentation_4
+//@ prop: C05
+//@ functions: insim/src/net/blocking_impl/framed.rs Framed::read; insim/src/net/blocking_impl/framed.rs Framed::read_buf
+//@ statement: blocking Framed::read over a transport that delivers one 4-byte frame (symbolic request id) in reads of [3, 1] byte(s): read returns exactly that frame's packet and writes nothing
+//@ bounded: ONE frame of 4 bytes, segmentation [3, 1] (the 8 harnesses enumerate all 2^3 segmentations); Codec::decode replaced by an executable model of its proved contract; a second frame does not finish in CBMC (K31)
+//@ timeout: 1500
+#[kani::proof]
+#[kani::unwind(14)]
+#[kani::stub(core::fmt::write, verif_fmt_ok)]
+#[kani::stub(crate::net::codec::Codec::decode, decode_tiny_only)]
+#[kani::stub(crate::net::codec::Codec::encode, encode_model)]
+fn c05_one_frame_segmentation_4() {
+    one_frame(4);
+}
+
+//@ id: one_frame_segmentation_5
+//@ prop: C05
+//@ functions: insim/src/net/blocking_impl/framed.rs Framed::read; insim/src/net/blocking_impl/framed.rs Framed::read_buf
+//@ statement: blocking Framed::read over a transport that delivers one 4-byte frame (symbolic request id) in reads of [1, 2, 1] byte(s): read returns exactly that frame's packet and writes nothing
+//@ bounded: ONE frame of 4 bytes, segmentation [1, 2, 1] (the 8 harnesses enumerate all 2^3 segmentations); Codec::decode replaced by an executable model of its proved contract; a second frame does not finish in CBMC (K31)
+//@ timeout: 1500
+#[kani::proof]
+#[kani::unwind(14)]
+#[kani::stub(core::fmt::write, verif_fmt_ok)]
+#[kani::stub(crate::net::codec::Codec::decode, decode_tiny_only)]
+#[kani::stub(crate::net::codec::Codec::encode, encode_model)]
+fn c05_one_frame_segmentation_5() {
+    one_frame(5);
+}
+
+//@ id: one_frame_segmentation_6
+//@ prop: C05
+//@ functions: insim/src/net/blocking_impl/framed.rs Framed::read; insim/src/net/blocking_impl/framed.rs Framed::read_buf
+//@ statement: blocking Framed::read over a transport that delivers one 4-byte frame (symbolic request id) in reads of [2, 1, 1] byte(s): read returns exactly that frame's packet and writes nothing
+//@ bounded: ONE frame of 4 bytes, segmentation [2, 1, 1] (the 8 harnesses enumerate all 2^3 segmentations); Codec::decode replaced by an executable model of its proved contract; a second frame does not finish in CBMC (K31)
+//@ timeout: 1500
+#[kani::proof]
+#[kani::unwind(14)]
+#[kani::stub(core::fmt::write, verif_fmt_ok)]
+#[kani::stub(crate::net::codec::Codec::decode, decode_tiny_only)]
+#[kani::stub(crate::net::codec::Codec::encode, encode_model)]
+fn c05_one_frame_segmentation_6() {
+    one_frame(6);
+}
+
+//@ id: one_frame_segmentation_7
+//@ prop: C05
+//@ functions: insim/src/net/blocking_impl/framed.rs Framed::read; insim/src/net/blocking_impl/framed.rs Framed::read_buf
+//@ statement: blocking Framed::read over a transport that delivers one 4-byte frame (symbolic request id) in reads of [1, 1, 1, 1] byte(s): read returns exactly that frame's packet and writes nothing
+//@ bounded: ONE frame of 4 bytes, segmentation [1, 1, 1, 1] (the 8 harnesses enumerate all 2^3 segmentations); Codec::decode replaced by an executable model of its proved contract; a second frame does not finish in CBMC (K31)
+//@ timeout: 1500
+#[kani::proof]
+#[kani::unwind(14)]
+#[kani::stub(core::fmt::write, verif_fmt_ok)]
+#[kani::stub(crate::net::codec::Codec::decode, decode_tiny_only)]
+#[kani::stub(crate::net::codec::Codec::encode, encode_model)]
+fn c05_one_frame_segmentation_7() {
+    one_frame(7);
+}
+
+//@ id: keepalive_call_site_one_frame
+//@ prop: C07
+//@ functions: insim/src/net/blocking_impl/framed.rs Framed::read
+//@ statement: blocking Framed::read receiving one TINY frame with ANY request id and sub-type NONE or PING: when read returns the packet, the transport has received exactly one TINY_NONE frame with request id 0 iff the packet is a keep-alive (sub-type NONE, request id 0) - written before the keep-alive is handed to the caller - and nothing otherwise
+//@ bounded: ONE received frame (no history), compressed mode; Codec::{decode,encode} replaced by executable models of their proved contracts
+//@ timeout: 1500
+#[kani::proof]
+#[kani::unwind(14)]
+#[kani::stub(core::fmt::write, verif_fmt_ok)]
+#[kani::stub(crate::net::codec::Codec::decode, decode_tiny_only)]
+#[kani::stub(crate::net::codec::Codec::encode, encode_model)]
+fn c07_keepalive_call_site_one_frame() {
+    let r1: u8 = kani::any();
+    let s1: u8 = kani::any();
+    kani::assume(s1 == 0 || s1 == 3);
+    let data: [u8; MAXS] = [1, 3, r1, s1, 0, 0, 0, 0, 0, 0, 0, 0];
+    script_reset(data, 4, 0);
+    let mut f = framed(Mode::Compressed);
+    f.verify_version(false);
+    let a = f.read();
+    expect_tiny(&a, r1, s1 == 0);
+    if r1 == 0 && s1 == 0 {
+        assert!(out_len() == 4, "the keep-alive is answered before it is returned, exactly once");
+        assert!(out_byte(0) == 1 && out_byte(1) == 3 && out_byte(2) == 0 && out_byte(3) == 0, "the reply is one TINY_NONE frame with request id 0");
+    } else {
+        assert!(out_len() == 0, "nothing is written in response to any other packet");
+    }
+    core::mem::forget(a);
+    core::mem::forget(f);
+}
+
+//@ id: version_gate_call_site_one_frame
+//@ prop: C09
+//@ functions: insim/src/net/blocking_impl/framed.rs Framed::read; insim/src/net/blocking_impl/framed.rs Framed::verify_version
+//@ statement: blocking Framed::read receiving one VER frame with ANY of the 256 InSim versions, verification on or off (symbolic): with verification on the packet is delivered iff it reports 9 and otherwise read returns IncompatibleVersion(v) carrying v; with verification off it is always delivered; nothing is written
+//@ bounded: ONE received frame (no history), compressed mode; Codec::{decode,encode} replaced by executable models of their proved contracts
+//@ timeout: 1500
+#[kani::proof]
+#[kani::unwind(14)]
+#[kani::stub(core::fmt::write, verif_fmt_ok)]
+#[kani::stub(crate::net::codec::Codec::decode, decode_ver_only)]
+#[kani::stub(crate::net::codec::Codec::encode, encode_model)]
+fn c09_version_gate_call_site_one_frame() {
+    let v: u8 = kani::any();
+    let verify: bool = kani::any();
+    let data: [u8; MAXS] = [1, 2, 5, v, 0, 0, 0, 0, 0, 0, 0, 0];
+    script_reset(data, 4, 0);
+    let mut f = framed(Mode::Compressed);
+    f.verify_version(verify);
+    let a = f.read();
+    match &a {
+        Ok(Packet::Ver(ver)) => {
+            assert!(ver.insimver == v, "the delivered VER is the received one");
+            assert!(!verify || v == 9, "with verification on only InSim 9 is delivered");
+        },
+        Err(Error::IncompatibleVersion(got)) => {
+            assert!(verify && v != 9, "rejected only when enabled and the version is not 9");
+            assert!(*got == v, "the error carries the offending version");
+        },
+        _ => assert!(false, "a VER frame is delivered or rejected by the gate, nothing else"),
+    }
+    assert!(out_len() == 0, "nothing is written for a VER packet");
+    core::mem::forget(a);
+    core::mem::forget(f);
 }
